@@ -278,6 +278,7 @@ func runC07(c *core.Ctx, o Options) {
 	}
 	c.Extra["entry_points"] = len(roots)
 	c.Extra["paths"] = nTraces
+	c.RuleMin = map[string]int{"G1": 14, "G2": 4, "G3": 2, "census": 12}
 	c.MinObl = 20
 }
 
